@@ -635,7 +635,9 @@ class Mir:
                 hdr_ng = strip_generics(hdr)
                 if " for " in hdr_ng:
                     tr, ty = hdr_ng.split(" for ", 1)
-                    res = (tr.strip().split("::")[-1], ty.strip().lstrip("&").strip().split("::")[-1])
+                    ty = ty.strip()
+                    amps = len(ty) - len(ty.lstrip("&"))
+                    res = (tr.strip().split("::")[-1], "&" * amps + ty.lstrip("&").strip().split("::")[-1])
                 else:
                     res = (None, hdr_ng.strip().split("::")[-1])
             else:
@@ -676,6 +678,8 @@ class Mir:
                 if rest.startswith("::"):
                     rest = rest[2:]
                 self.methods.setdefault((ty, rest), []).append((tr, name))
+                if ty and ty.startswith("&"):
+                    self.methods.setdefault((ty.lstrip("&"), rest), []).append((tr, name))
             else:
                 last = name.split("::")[-1]
                 self.by_suffix.setdefault(last, []).append(name)
@@ -761,8 +765,27 @@ class Mir:
                 ty = _type_last(parts[0])
                 tr = _type_last(parts[1]) if len(parts) > 1 else None
             else:
+                parts = [inner]
                 ty, tr = _type_last(inner), None
+            raw0 = parts[0].strip()
+            amps = 0
+            while raw0.startswith("&"):
+                amps += 1
+                raw0 = raw0[1:].strip()
+                if raw0.startswith("mut "):
+                    raw0 = raw0[4:]
             cands = self.methods.get((ty, rest), [])
+            if len(cands) > 1:
+                # `impl Trait for X` vs `impl Trait for &X`: the impl whose Self has the same reference depth
+                def self_depth(n):
+                    mi = IMPL_RE.search(n)
+                    if not mi:
+                        return 0
+                    _, ity = self.impl_info(mi.group(1), int(mi.group(2)), int(mi.group(3)), int(mi.group(4)), int(mi.group(5)))
+                    return len(ity) - len(ity.lstrip("&")) if ity else 0
+                same = [(t, n) for (t, n) in cands if self_depth(n) == amps]
+                if same:
+                    cands = same
             if not cands and ty.startswith("["):
                 cands = self.methods.get(("[T]", rest), [])  # blanket impl over slices
             if not cands and tr is not None:
